@@ -1088,3 +1088,17 @@ fn is_filesystem_safe(column_name: &str) -> bool {
             .chars()
             .all(|c| (c.is_alphanumeric() && c.is_lowercase()) || c == '_')
 }
+
+
+#[cfg(feature = "verif")]
+pub fn verif_subpartition(
+    opts: &Options,
+    columns: Vec<Arc<Column>>,
+) -> (Vec<SubpartitionMetadata>, Vec<Vec<Arc<Column>>>) {
+    subpartition(opts, columns)
+}
+
+#[cfg(feature = "verif")]
+pub fn verif_is_filesystem_safe(column_name: &str) -> bool {
+    is_filesystem_safe(column_name)
+}
